@@ -29,9 +29,12 @@ Definition retr_globals (w : rworld) : env :=
    ("$pkg", VOrc "pkg" [("$wait_any", [VUnit]); ("$try_send", [VUnit])])].
 
 Definition is_receiver (e : gval) : bool := match e with VEff x _ => x =? "receiver" | _ => false end.
+(* the translated functions that run inside this lemma file; every other call is a scripted collaborator *)
+Definition retr_funs : list (string * gfun) :=
+  filter (fun p => (fst p =? "Manager.RetrieveLoop")) gen_funs.
 Definition run_retrieve (w : rworld) : option (list gval * list gval) :=
-  match lookup gen_funs "Manager.RetrieveLoop" with
-  | Some fn => interp (bind (exec 400 gen_funs (retr_globals w) (start_env fn (Some (retr_mgr w)) [ctx_v w]) [] (f_body fn))
+  match lookup retr_funs "Manager.RetrieveLoop" with
+  | Some fn => interp (bind (exec 400 retr_funs (retr_globals w) (start_env fn (Some (retr_mgr w)) [ctx_v w]) [] (f_body fn))
                             (fun r => RRet (fst r, filter (fun e => negb (is_receiver e)) (rev (snd r)))))
   | None => None
   end.
